@@ -21,7 +21,7 @@ Files == [inc |-> Probe \o <<Set("a", Lit(I(8))), Set("q", Lit(I(1)))>> \o Probe
 
 \* the constructs: Wrap(k, body) puts body inside construct k, with probes before and after
 Kinds == <<"with_a", "with_b", "with_ab", "with_a_from_b", "for_a", "for_b", "macro_a", "macro_0", "if", "set_a", "set_b",
-           "include", "include_only", "autoescape", "filtertag", "ifchanged", "spaceless_like_if", "macro_ab_omit", "macro_g_omit">>
+           "include", "include_only", "autoescape", "filtertag", "ifchanged", "spaceless_like_if", "macro_ab_omit", "macro_g_omit", "widthratio_a", "spaceless">>
 
 Wrap(k, body) ==
   CASE k = "with_a" -> << [t |-> "with", pairs |-> <<[name |-> "a", e |-> Lit(I(1))]>>, body |-> body] >>
@@ -39,6 +39,8 @@ Wrap(k, body) ==
                                  Out([t |-> "call", name |-> "m2", args |-> <<Lit(I(5))>>]), Out([t |-> "call", name |-> "m2", args |-> <<>>]) >>
     [] k = "macro_g_omit" -> << [t |-> "macro", name |-> "m3", params |-> <<[name |-> "g", def |-> NoDef], [name |-> "gg", def |-> Var(<<"g">>)]>>, body |-> body, export |-> FALSE],
                                 Out([t |-> "call", name |-> "m3", args |-> <<>>]) >>
+    [] k = "widthratio_a" -> << [t |-> "widthratio", a |-> Lit(I(1)), m |-> Lit(I(4)), w |-> Lit(I(10)), as |-> "a"] >> \o body     \* binds a (= 3) like set
+    [] k = "spaceless" -> << [t |-> "spaceless", body |-> body] >>
     [] k = "if" -> << [t |-> "if", conds |-> <<Lit(I(1))>>, bodies |-> <<body>>] >>
     [] k = "set_a" -> <<Set("a", Lit(I(6)))>> \o body
     [] k = "set_b" -> <<Set("b", Var(<<"a">>))>> \o body
